@@ -603,11 +603,14 @@ PROPS["C05"]["harnesses"] += rxl_big2(["complete_lattice_big", "first_lattice_bi
 for _p in ("C01", "C02", "C03", "C05", "C08", "C10"):
     PROPS[_p]["outside"] = [o.replace("storage buffers larger than 65535 bytes", "storage buffers larger than 70000 bytes") for o in PROPS[_p].get("outside", [])] + [
         "frames and storage buffers longer than 70000 bytes (the *_big lattices cover lengths up to 70000, i.e. across the 16-bit boundary)"]
-# the receiver's walker on chains longer than 4 (hook verif_walk_extensions).  Measured: a symbolic chain
-# length, and fixed lengths 5 / 9 / 10 with data, run CBMC out of 10-12 GB (the Vec<Extension> growth inside the
-# walker); only the data-less "unknown mandatory in ninth place" instance finished (547 s, 9.8 GB).  Optional, thorough only.
+# the receiver's walker on chains longer than 4 (hook verif_walk_extensions).  Measured: a symbolic chain length
+# runs CBMC out of 12 GB; fixed lengths 5 / 9 / 10 need 10-15 GB and 9-14 minutes each (the Vec<Extension> growth
+# inside the walker).  Optional; thorough only, except the cheapest one (unknown mandatory id in ninth place).
 WALKER_B = "the receiver's walker (hook verif_walk_extensions) on a chain of a fixed length: ids, data bytes and final protocol type symbolic; "
 PROPS["C13"]["harnesses"] += [
     H("c13::walker_chain_5_mixed", tier="thorough", required=False, bounds=WALKER_B + "5 optional extensions, 2nd and 4th with two data bytes", unwind=12, cost=300, timeout=1800, timeout_t=2400, mem_gb=24),
-    H("c13::walker_chain_9_unknown_last", tier="thorough", required=False, bounds="8 data-less optional extensions then an unknown mandatory id (any of the 252 unknown ones)", unwind=12, cost=300, timeout=1800, timeout_t=2400, mem_gb=16),
+    H("c13::walker_chain_9_mand_last", tier="thorough", required=False, bounds=WALKER_B + "8 optional extensions (2nd, 6th with data) then the known non-final mandatory 0x0011", unwind=12, cost=400, timeout=1800, timeout_t=3000, mem_gb=32),
+    H("c13::walker_chain_10_optional", tier="thorough", required=False, bounds=WALKER_B + "10 optional extensions, first and last with two data bytes", unwind=12, cost=400, timeout=1800, timeout_t=3000, mem_gb=32),
+    # quick, but optional: ~9 min / 10 GB next to the 6-minute lean member; a timeout must not fail the check
+    H("c13::walker_chain_9_unknown_last", tier="quick", required=False, bounds="8 data-less optional extensions then an unknown mandatory id (any of the 252 unknown ones)", unwind=12, cost=600, timeout=1500, timeout_t=2400, mem_gb=16),
     H("c13::walker_chain_6_unknown_fifth", tier="thorough", required=False, bounds="6 extensions, the fifth an unknown mandatory id", unwind=12, cost=200, timeout=1800, timeout_t=2400, mem_gb=16)]
